@@ -68,3 +68,11 @@ package tokenizers
 //@     invariant token != nil && line == L(seq(sc(scanner).content), old(cur(scanner))) && column == C(seq(sc(scanner).content), old(cur(scanner)))
 //@     invariant sc(scanner).position + 1 <= len(sc(scanner).content)
 //@     decreases len(sc(scanner).content) - sc(scanner).position
+
+// A15 (trusted, not verified): building the expression tokenizer (state objects, symbol and keyword tables) terminates
+// without a panic; it runs once per parser and has no input
+//@ func NewExpressionTokenizer
+//@   ensures fresh(result) && result != nil
+//@   assigns nothing
+//@   nopanic
+//@   trusted
